@@ -22,7 +22,35 @@ def mkReq (range ifRange : Option Str) (ifRangeDate ims : Option Int) (inm im : 
 
 def outBody (l : List Bytes) : String := outList hex l
 
+/-- `status|Content-Range|Content-Length|body|Accept-Ranges`; a 416 carries `Content-Range: bytes */length` -/
+def outResp (clen : Option Int) : Option WsgiOut → String
+  | none => "416|*/" ++ outOpt outInt clen
+  | some o =>
+    "|".intercalate [toString o.status,
+      outOpt (fun (a, b, l) => outInt a ++ "-" ++ outInt b ++ "/" ++ outInt l) o.contentRange,
+      outOpt outInt o.contentLength,
+      if o.status == 206 then outBody o.body else hex o.body.flatten,
+      outBool o.acceptRanges]
+
 def handle : Handler
+  | "condt", [ign, range, ifRange, ims, inm, im, etag, lmSec, lmMicro] =>
+    -- date headers as text, parsed by the C06 model (IMF-fixdate); instants count from 0001-01-01
+    match boolArg ign, optStr range, optStr ifRange, optStr ims, optStr inm,
+        optStr im, optStr etag, optInt lmSec, natArg lmMicro with
+    | some ign, some range, some ifRange, some ims, some inm, some im, some etag,
+        some lmSec, some lmMicro =>
+      some (outBool (isResourceModified (mkReqText range ifRange ims inm im) etag
+        (lmSec.map fun s => (s, lmMicro)) ign))
+    | _, _, _, _, _, _, _, _, _ => some badArgs
+  | "respt", [method, range, ifRange, ims, inm, im, etag, lm, clen, accept, chunks, seek, pass] =>
+    match unhexStr method, optStr range, optStr ifRange, optStr ims, optStr inm,
+        optStr im, optStr etag, optStr lm, optInt clen, boolArg accept, listArg unhex chunks,
+        optArg natArg seek, natArg pass with
+    | some method, some range, some ifRange, some ims, some inm, some im, some etag,
+        some lm, some clen, some accept, some chunks, some seek, some pass =>
+      some (outResp clen (respond method (mkReqText range ifRange ims inm im)
+          (mkRespText etag lm) clen accept chunks seek pass))
+    | _, _, _, _, _, _, _, _, _, _, _, _, _ => some badArgs
   | "cond", [ign, range, ifRange, ifRangeDate, ims, inm, im, etag, lmSec, lmMicro] =>
     match boolArg ign, optStr range, optStr ifRange, optInt ifRangeDate, optInt ims, optStr inm,
         optStr im, optStr etag, optInt lmSec, natArg lmMicro with
@@ -37,14 +65,8 @@ def handle : Handler
         optArg natArg seek, natArg pass with
     | some method, some range, some ifRange, some ifRangeDate, some ims, some inm, some im, some etag,
         some lm, some clen, some accept, some chunks, some seek, some pass =>
-      some (match respond method (mkReq range ifRange ifRangeDate ims inm im)
-          { etag := etag, lastModified := lm } clen accept chunks seek pass with
-        | none => "416"
-        | some o =>
-          "|".intercalate [toString o.status,
-            outOpt (fun (a, b, l) => outInt a ++ "-" ++ outInt b ++ "/" ++ outInt l) o.contentRange,
-            outOpt outInt o.contentLength,
-            if o.status == 206 then outBody o.body else hex o.body.flatten])
+      some (outResp clen (respond method (mkReq range ifRange ifRangeDate ims inm im)
+          { etag := etag, lastModified := lm } clen accept chunks seek pass))
     | _, _, _, _, _, _, _, _, _, _, _, _, _, _ => some badArgs
   | "prange", [v] =>
     match optStr v with
